@@ -19,12 +19,8 @@ theorem closeStep_not_running (s : Int) (b : Bool) (h : s ≠ ListenerRunning) :
 
 /-- whatever the state was, after `stopAccept` it is not Running -/
 theorem stopAccept_after (s : Int) (b c : Bool) : (stopAccept s b c).1 ≠ ListenerRunning := by
-  unfold stopAccept
-  split
-  · rename_i h
-    simp only [Bool.or_eq_true, decide_eq_true_eq] at h
-    rcases h with h | h <;> simp [h, ListenerClosed, ListenerStopped, ListenerRunning]
-  · split <;> simp [ListenerStopped, ListenerRunning]
+  simp only [stopAccept, ListenerClosed, ListenerStopped, ListenerRunning]
+  grind
 
 /-- whatever the state was, after `Close` it is Closed -/
 theorem closeStep_after (s : Int) (b : Bool) : (closeStep s b).1 = ListenerClosed := by
